@@ -180,7 +180,76 @@ def r04g(F):
 		out += P4_fail_blocks(F, '04.g', fu, oks, g.decisions, False, 'final-hop amount/cltv check', key='final-hop:%d' % g.line) if False else []
 	return out
 
+def r04h(F):
+	"""the payment-secret expiry shares its field with the custom min-final-CLTV delta: writer, delta reader and expiry reader agree on the bytes"""
+	out = []
+	ex_names = {}
+	def accesses(fn, kind, pred):
+		fu = F.func(fn)
+		ex = Expr(fu)
+		got = set()
+		for bi, k, base, idx, rv, line in const_index_accesses(fu):
+			if k != kind:
+				continue
+			if pred(fu, ex, base, rv):
+				got.add(idx)
+		return fu, got
+	# writer: construct_info_bytes ORs the big-endian delta into these bytes of the expiry field
+	def is_or(fu, ex, base, rv):
+		return rv is not None and rv[0] == 'bin' and rv[1] == 'BitOr'
+	try:
+		wf, w_idx = accesses(IP + 'construct_info_bytes', 'w', is_or)
+	except AnchorMissing as e:
+		return [Result('04.h', False, 'anchor:construct_info_bytes', 'anchor missing: %s' % e)]
+	# keep only the ORs whose right operand comes from the delta's to_be_bytes
+	wfu = F.func(IP + 'construct_info_bytes')
+	wex = Expr(wfu)
+	w_idx = set()
+	for bi, k, base, idx, rv, line in const_index_accesses(wfu):
+		if k == 'w' and rv is not None and rv[0] == 'bin' and rv[1] == 'BitOr':
+			e = wex.of_rvalue(rv)
+			if any(c.endswith('to_be_bytes') for c in expr_leaves(e)['calls']) and 'payment_type' not in expr_str(e):
+				src = [a for a in (e[2], e[3])]
+				if any('min_final_cltv_expiry_delta' in expr_str(a) or 'to_be_bytes' in expr_str(a) and 'expiry_timestamp' not in expr_str(a) for a in src):
+					w_idx.add(idx)
+	# delta reader
+	rfu = F.func(IP + 'min_final_cltv_expiry_delta_from_info')
+	r_idx = {idx for bi, k, base, idx, rv, line in const_index_accesses(rfu) if k == 'r'}
+	# expiry reader: verify clears (x & 0) these bytes before from_be_bytes
+	vfu = F.func(IP + 'verify')
+	vex = Expr(vfu)
+	c_idx = set()
+	clear_blocks = set()
+	for bi, k, base, idx, rv, line in const_index_accesses(vfu):
+		if k == 'w' and rv is not None and rv[0] == 'bin' and rv[1] == 'BitAnd':
+			e = vex.of_rvalue(rv)
+			if (e[3][0] == 'const' and e[3][1] == 0) or (e[2][0] == 'const' and e[2][1] == 0):
+				c_idx.add(idx)
+				clear_blocks.add(bi)
+		elif k == 'w' and rv is not None and rv[0] == 'use' and rv[1][0] == 'k' and rv[1][1].get('v') == 0 and vfu.local_name(base[0]) and 'expiry' in (vfu.local_name(base[0]) or ''):
+			c_idx.add(idx)
+			clear_blocks.add(bi)
+	ok = w_idx == r_idx == c_idx and len(w_idx) == 2
+	out.append(Result('04.h', ok, ('ok:' if ok else 'bytes:') + 'delta-bytes-agree', 'bytes of the expiry field that carry the custom CLTV delta: written %s, read as delta %s, cleared before the expiry is decoded %s (must be the same two bytes: an uncleared delta byte inflates the decoded expiry so the secret never expires)' % (sorted(w_idx), sorted(r_idx), sorted(c_idx)), len(w_idx) + len(r_idx) + len(c_idx), where=F.where(vfu.name)))
+	# the clearing precedes the decoding of the expiry on every path through the custom-CLTV arms, and happens only there
+	dec = [b for b, ci in vfu.calls() if norm(ci.get('f') or '').endswith('from_be_bytes') and 'expiry' in expr_str(vex.of_operand(ci['args'][0]))]
+	vs = enum_variants(F, IP + 'Method')
+	custom = [v for v in vs if 'CustomFinalCltv' in v]
+	oka = bool(dec) and bool(clear_blocks) and len(custom) == 2
+	out.append(Result('04.h', oka, ('ok:' if oka else 'anchor:') + 'expiry-decode-site', 'verify decodes the expiry with from_be_bytes after the method switch (%d decode site(s), %d custom-CLTV methods)' % (len(dec), len(custom)), len(dec), where=F.where(vfu.name)))
+	# the delta returned to the caller (min_final_cltv_expiry_delta) is read by the delta reader in the same arms
+	rd = set(sites_call(vfu, [IP + 'min_final_cltv_expiry_delta_from_info']))
+	okr = bool(rd) and all(vfu.reach([b]) & clear_blocks for b in rd)
+	out.append(Result('04.h', okr, ('ok:' if okr else 'shape:') + 'delta-read-then-cleared', 'where verify reads the custom delta it also clears those bytes', len(rd), where=F.where(vfu.name)))
+	# the 48-bit bound at creation keeps the timestamp out of the delta bytes
+	gs = [Guard(wfu, c) for c in comparisons(wfu)]
+	b48 = [g for g in gs if g.nf[2] in ((1 << 48) - 1, (1 << 48)) and any('expiry' in v or 'calculate_absolute_expiry' in v for v in g.nf[0])]
+	okb = len(b48) == 1 and ((b48[0].op, b48[0].nf[2]) in (('Gt', (1 << 48) - 1), ('Ge', 1 << 48)))
+	out.append(Result('04.h', okb, ('ok:' if okb else 'guard:') + 'timestamp-fits-48-bits', 'construct_info_bytes refuses an expiry timestamp above 2^48-1 when a custom delta is stored (%s)' % [g.text()[:80] for g in b48], len(gs), where=F.where(wfu.name)))
+	return out
+
 RULES = [
+	('04.h', 'custom min-final-CLTV delta bytes: creation, delta reader and expiry decoder agree; expiry test uses the cleared value', r04h),
 	('04.a', 'inbound_payment::verify: Ok only past authentication, minimum amount and expiry', r04a),
 	('04.b', 'receive pipeline: handle_claimable_htlc only through verify Ok (one reviewed exemption) and the custom CLTV guard', r04b),
 	('04.c', 'PaymentClaimable only in handle_claimable_htlc on Ok(true) of the completion check; no parts added while claiming; purposes match', r04c),
